@@ -94,6 +94,18 @@ abbrev jeFld (buf : Bytes) (sp : Bool) (ns : Int) (rbuf renc : List Val) (newRef
   [("buf", .bytes buf), ("spaced", .bool sp), ("openNs", .int ns), ("rbuf", .list rbuf), ("renc", .list renc),
    ("newRefl", newRefl), ("self", self), ("ev", .list ev)]
 
+/-- the fields in play in `clone` / `Clone`: the receiver (cfg, buf, spaced, openNs) and the pooled encoder being set up (o.*) -/
+abbrev cloneFld (cfg : List Val) (buf : Bytes) (sp : Bool) (ns : Int) (ocfg : List Val) (obuf : Bytes) (osp : Bool) (ons : Int)
+    (oself : Val) (ev : List Val) : Env :=
+  [("cfg", .list cfg), ("buf", .bytes buf), ("spaced", .bool sp), ("openNs", .int ns),
+   ("o.cfg", .list ocfg), ("o.buf", .bytes obuf), ("o.spaced", .bool osp), ("o.openNs", .int ons), ("o.self", oself),
+   ("ev", .list ev)]
+
+/-- the fields of the encoder handed to `putJSONEncoder` (here `buf` is the nil-able POINTER) -/
+abbrev putFld (cfg bufp : List Val) (sp : Bool) (ns : Int) (rbuf renc : List Val) (self : Val) (ev : List Val) : Env :=
+  [("cfg", .list cfg), ("buf", .list bufp), ("spaced", .bool sp), ("openNs", .int ns), ("rbuf", .list rbuf),
+   ("renc", .list renc), ("self", self), ("ev", .list ev)]
+
 /-! ### `EncodeEntry`: the configuration it reads, the entry it is handed, what it computes -/
 
 /-- the `EncoderConfig` fields `EncodeEntry` reads (keys, line ending, the nil-able sub-encoder functions) -/
